@@ -376,4 +376,30 @@ def run_case(rng, tier, idx):
         return c.reject('%s in %s: %s' % (type(e).__name__, mode, str(e)[:100]))
     lam_pos, act = judge_pairs(c, K, G, ev, vecs, mode, k)
     c.nontrivial = lam_pos.size > 0
+    # the same Panel object after a redefinition (a dimension, an edge flag, the laminate offset), analysed again: the pairs
+    # returned now belong to the matrices of the panel as defined now (built here on a fresh object)
+    if mode == 'panel_method' and rng.random() < 0.4:
+        c.tag('clause:redefined')
+        d = desc['panel']
+        d2 = dict(d); d2['flags'] = dict(d['flags']); d2['lam'] = dict(d['lam'])
+        what = str(rng.choice(['a', 'b', 'flag', 'offset']))
+        if what in ('a', 'b'):
+            d2[what] = d[what] * float(rng.uniform(0.8, 1.25))
+            setattr(p, what, d2[what])
+        elif what == 'flag':
+            k_ = 'w%sr%s' % (str(rng.choice(['1', '2'])), str(rng.choice(['x', 'y'])))
+            d2['flags'][k_] = 0.0 if d['flags'].get(k_, 1.0) else 1.0
+            setattr(p, k_, d2['flags'][k_])
+        else:
+            d2['lam']['offset'] = float(d['lam']['offset'] + rng.uniform(-0.5, 0.5) * sum(d['lam']['plyts']))
+            p.offset = d2['lam']['offset']
+        c.desc['redefinition'] = what
+        try:
+            q = gen.build_panel(d2)
+            q.Nxx, q.Nyy, q.Nxy = p.Nxx, p.Nyy, p.Nxy
+            K2 = q.calc_k0(silent=True); G2 = q.calc_kG0(silent=True)
+            p.lb(silent=True, sparse_solver=sparse)
+            judge_pairs(c, K2, G2, p.eigvals, p.eigvecs, 'panel_method after redefinition (%s):' % what, k)
+        except Exception as e:
+            c.info['redefinition_rejected'] = '%s: %s' % (type(e).__name__, str(e)[:100])
     return c
